@@ -159,6 +159,21 @@ def check_case(case, stats=None):
     # a rebuilt image uploaded under the SAME type/version replaces the old one completely
     if case.get("reupload"):
         image3 = lockstep.image_bytes({"len": case["reupload"], "seed": case["seed"] + 7, "fill": "random"})
+        kind = case.get("reupload_kind", "random")
+        # images RELATED to the one stored: a prefix of it, it without its blank tail, it plus more, it with
+        # one byte changed, the very same again
+        if kind == "prefix" and len(image) > 1:
+            image3 = image[: max(1, case["reupload"] % len(image))]
+        elif kind == "strip_ff":
+            image3 = image.rstrip(b"\xff") or image[:1]
+        elif kind == "extend":
+            image3 = image + image3
+        elif kind == "one_byte":
+            pos = case["reupload"] % len(image)
+            image3 = image[:pos] + bytes([image[pos] ^ 0x5A]) + image[pos + 1:]
+        elif kind == "same":
+            image3 = image
+        image3 = image3[:8192]
         drv.update_fw(nodes, fw[0], fw[1], image=image3)
         replies = fetch(drv, nodes[0], O.words_hex(1, 1, 1, 1, 1), 0)
         if len(replies) != 1:
@@ -218,6 +233,7 @@ def make_case(length, rnd, full=None, via_hex=False):
         case["second"] = rnd.choice([16, 100, 128, 300])
     if rnd.random() < 0.3:
         case["reupload"] = rnd.choice([16, 100, 129, 400, max(1, min(length, 2000) - 17), min(length, 2000) + 40])
+        case["reupload_kind"] = rnd.choice(["random", "random", "prefix", "prefix", "strip_ff", "extend", "one_byte", "same"])
     if via_hex:
         case["via_hex"] = True
         case["hexopts"] = {
